@@ -43,6 +43,12 @@ def judge_plugin(st0, ops, props=None, classify=True):
     shrink = st0["shrink"]
     cur_settings = st0
     counter = [0]
+    # reference printers: `virt` executes the file, `phys` what the hooks let through (C15:
+    # the after-print prefix must re-synchronise the printer with the file)
+    from .refprinter import Printer
+    g90e = bool(st0.get("cfg", {}).get("g90e"))
+    phys, virt = Printer(g90e), Printer(g90e)
+    tracked_ok = [True]
 
     def fresh_id():
         counter[0] += 1
@@ -64,6 +70,8 @@ def judge_plugin(st0, ops, props=None, classify=True):
                 unit.on_event(suites.event_value(op[1]), None)
                 if op[1] == "PRINT_STARTED":
                     active = True
+                    phys, virt = Printer(g90e), Printer(g90e)
+                    tracked_ok[0] = True
                 elif op[1] in END_EVENTS:
                     active = False
                     if clear and unit.state.excludedRegions:
@@ -123,12 +131,30 @@ def judge_plugin(st0, ops, props=None, classify=True):
                         viol("C11", "step %d: no print active but %r returned %r" % (idx, op[1], r))
                     if impl.state_digest(unit.state) != before_state:
                         viol("C11", "step %d: no print active but %r changed the tracked state" % (idx, op[1]))
+                elif op[2]:
+                    try:
+                        virt.execute(op[1])
+                        if r is None:
+                            phys.execute(op[1])
+                        elif isinstance(r, list):
+                            for c in r:
+                                if c is not None:
+                                    phys.execute(c)
+                        elif isinstance(r, tuple) and r and r[0] == "raised":
+                            tracked_ok[0] = False
+                    except Exception:  # pylint: disable=broad-except
+                        tracked_ok[0] = False
             elif k == "at":
                 comm = impl.Comm(bool(op[3]))
                 try:
                     unit.handleAtCommandQueuing(comm, "queuing", op[1], op[2])
                 except Exception:  # pylint: disable=broad-except
                     pass
+                try:
+                    for c in comm.sent:
+                        phys.execute(c)
+                except Exception:  # pylint: disable=broad-except
+                    tracked_ok[0] = False
                 if not active and (comm.sent or impl.state_digest(unit.state) != before_state):
                     viol("C11", "step %d: no print active but @%s %s had an effect" % (idx, op[1], op[2]))
             elif k == "script":
@@ -149,6 +175,18 @@ def judge_plugin(st0, ops, props=None, classify=True):
                         viol("C15", "step %d: excluding at print end but the hook returned %r" % (idx, r))
                     if unit.state.excluding:
                         viol("C15", "step %d: still excluding after the after-print hook" % idx)
+                    if isinstance(r, tuple) and len(r) == 2 and isinstance(r[0], list) and tracked_ok[0] \
+                            and not unknown_axis and virt.abs and virt.unit == 1.0:
+                        try:
+                            for c in r[0]:
+                                phys.execute(c)
+                            a, b = phys.xyz(), virt.xyz()
+                            if any((p is None) != (q is None) or (p is not None and abs(p - q) > 1e-6)
+                                   for p, q in zip(a, b)):
+                                viol("C15", "step %d: after the hook's re-synchronisation moves %r the printer is at "
+                                            "%r, the file at %r" % (idx, r[0], a, b))
+                        except Exception:  # pylint: disable=broad-except
+                            pass
                 else:
                     if r is not None:
                         viol("C15", "step %d: hook %r/%r contributed %r (active=%r excluding=%r)" % (
